@@ -15,9 +15,15 @@
    itemBytes, body present, error present), the state of every goroutine (finished / inside the loader /
    waiting for value.lock / waiting for the cache lock), the number of backing-store loads per key and
    the delta cache must agree; so must every result a Get returned (revision or error, and its flag) and
-   every Peek. *)
+   every Peek.
+
+   CCoh: cache coherence across writers (RevCacheCoherence.v).  Two real database contexts ("nodes") on one
+   bucket; mutations (ordinary write, import of an SDK write, import of a user-xattr-only change, ISGR
+   conflict resolved as local wins) are made through one node, both nodes process their caching feed
+   (DocChanged), and Gets by revTreeID and by CV are issued on both nodes, before (pre-caching) and after.
+   Every Get result (interned projection incl. revID, CV and HLV history, or error) must be the model's. *)
 From SG Require Export Base.Prelude Base.Bytes C16.RevCache C16.RevCacheSharded C16.RevCacheConc C16.RevCacheDelta
-  C16.RevCacheStep.
+  C16.RevCacheStep C16.RevCacheCoherence.
 Open Scope N_scope.
 
 Record obs := Ob {
@@ -51,7 +57,8 @@ Inductive case :=
        (ops : list (N * op)) (observed : list obs)
 | CDelta (cfg : config) (ldt : list (key * lres)) (actt : list (doc * ares))
        (ops : list dop) (observed : list dobs)
-| CSched (nthr : nat) (ksz : list (key * N)) (ldt : list (key * lres)) (steps : list sstep).
+| CSched (nthr : nat) (ksz : list (key * N)) (ldt : list (key * lres)) (steps : list sstep)
+| CCoh (ops : list (hop * option N)).      (* op, and for a Get the observed result (None = error) *)
 
 Definition C (id sz : N) : content := mkC id sz.
 
@@ -179,6 +186,18 @@ Fixpoint check_steps (ksz : key -> N) (nthr : nat) (s : estate) (steps : list ss
       end && check_steps ksz nthr s r
   end.
 
+(* ---------- coherence across nodes ---------- *)
+Fixpoint check_hops (s : hstate) (ops : list (hop * option N)) : bool :=
+  match ops with
+  | [] => true
+  | (o, obs) :: r =>
+      match hstep docchanged_inval s o with
+      | Some (s', x) =>
+          match o with OGet _ _ _ => option_eqb N.eqb x obs | _ => true end && check_hops s' r
+      | None => false
+      end
+  end.
+
 Definition check (c : case) : bool :=
   match c with
   | CSeq cfgs ldt actt ops bs =>
@@ -187,6 +206,7 @@ Definition check (c : case) : bool :=
       check_dops cfg (dinit (ld_of ldt) (act_of actt)) ops bs
   | CSched nthr ksz ldt steps =>
       check_steps (ksize_of ksz) nthr (einit nthr (ld_of ldt)) steps
+  | CCoh ops => check_hops hinit ops
   end.
 
 Definition mismatches (cs : list case) : list N := failing check cs.
